@@ -112,7 +112,7 @@ def run_cc(ctx, name, corpus, only):
         for (n, k), a in zip(idx, ans2):
             lean[(n, k)] = a
 
-        parts = {k: {"n": 0, "dis": []} for k in ("k4", "k4acc", "k5", "k6a", "k6b", "k6c", "k6d", "k6e")}
+        parts = {k: {"n": 0, "dis": []} for k in ("k4", "k4acc", "k5", "k6a", "k6b", "k6c", "k6d", "k6e", "k6build")}
 
         def dis(part, n, **kw):
             d = {"program": n, "source": src[n], "size": len(src[n])}
@@ -156,6 +156,11 @@ def run_cc(ctx, name, corpus, only):
             parts["k6e"]["n"] += 1
             if bool(r.get("build")) == buildable:
                 dis("k6e", n, model=f"Buildable={buildable}", impl=(r.get("build") or "builds")[:600])
+            # k6build (C11, oracle = go build): whatever the compiler accepts must build - whether or not the
+            # model predicts the failure (a predicted failure is a defect of the tree the model mirrors)
+            parts["k6build"]["n"] += 1
+            if r.get("build"):
+                dis("k6build", n, reference="the generated package builds", impl=r["build"][:600])
             if r.get("build"):
                 continue
             distinct_traces.add(r["run_c"])
